@@ -450,6 +450,8 @@ func c09Plans(c *engine.Ctx) []c09Plan {
 		c09Plan{cfg: drv.Config{Kind: drv.Mem, NoVersioning: true}, state: objects},
 		c09Plan{cfg: drv.Config{Kind: drv.Mem, TimeSkew: true}, state: objects},
 		c09Plan{cfg: drv.Config{Kind: drv.Bolt, FailOnUnimplPage: true}, state: objects},
+		c09Plan{cfg: drv.Config{Kind: drv.MultiDir}, state: objects},
+		c09Plan{cfg: drv.Config{Kind: drv.SingleDir}, state: uploads},
 	)
 	return plans
 }
